@@ -20,7 +20,7 @@ class Connection:
     results_bucket_broker: Union["BucketBrokerT", None] = None
     middleware: Middleware = field(default_factory=Middleware, init=False)
     is_open: bool = field(default=False, init=False)
-    # ids of the messages which a worker on this connection has started to dispose of
+    # the deliveries (tokens, see `_CurrentDelivery`) which a worker on this connection has started to dispose of
     # (ack / nack / requeue / ...): nobody else may give such a message back
     _disposing: set = field(default_factory=set, init=False, repr=False, compare=False)
 
